@@ -9,6 +9,8 @@ fn once(case: &Value, run: &Run) -> Acc {
         "edge" => crate::checks::nodelist::replay_edge(case, run),
         "query" => crate::checks::common::replay_query(case, run),
         "parse" | "parse-eval" => crate::checks::lang::replay(case, run),
+        "ladder" => crate::checks::robust::replay_ladder(case, run),
+        "built-index" | "built-slice" => crate::checks::robust::replay_built(case, run),
         "ext" => crate::checks::ext::replay(case, run),
         "query-plain" => crate::checks::common::replay_plain(case, run),
         k => {
